@@ -72,7 +72,7 @@ Init == \E di \in DeclIds : st = [stage |-> "seed", di |-> di]
 Expand ==
   /\ st.stage = "seed"
   /\ LET d == Decls[st.di] IN
-     \E o \in {o \in 1..Len(d.opts) : ~FlagLike(d.opts[o])} :
+     \E o \in {o \in 1..Len(d.opts) : ~FlagLike(d.opts[o]) /\ d.opts[o].vtype = "string" /\ d.opts[o].choices = <<>> /\ ~d.opts[o].noIni /\ d.opts[o].cmd = 1} :      \* the tagged values are texts
        \E n \in 0..2, a \in 0..2, apos \in {"before", "after"}, c \in 0..2, envState \in {"unset", "set", "empty"} :
           /\ (d.opts[o].env = E => envState = "unset")
           /\ (a = 0 => apos = "before")
